@@ -73,7 +73,19 @@ def run(tier):
             t = by[r[1]]
             msg = t['msg'].replace('SyntaxError: ', '').replace('IndentationError: ', '')
             msg = __import__('re').sub(r"name '[^']+'", "name '<id>'", msg)
-            key = '%s|%s' % (r[3], msg if r[3] != 'CommonSyntaxParsesWithoutErrorNodes' else _shape(t['text']))
+            # inside an f-string replacement field (>= 3.9) the same rules prefix their message with "f-string: ": the
+            # cause is the rule, so the key is the message without that prefix
+            if msg.startswith('f-string: ') and not msg.startswith('f-string: expressions nested'):
+                msg = msg[len('f-string: '):]
+            shape = _shape(t['text'])
+            if r[3] == 'CommonSyntaxParsesWithoutErrorNodes':
+                key = '%s|%s' % (r[3], shape)
+            elif shape in ('backslash-continuation-at-line-start', 'formfeed-in-indentation'):
+                # a layout that parso reads differently from CPython (known findings): whatever issue follows from
+                # the different block structure has that cause
+                key = 'CommonSyntaxParsesWithoutErrorNodes|%s' % shape
+            else:
+                key = '%s|%s' % (r[3], msg)
             out.violation(key, 'Relational.' + r[3],
                           {'text': t['text'][:300], 'version': t['ver'], 'origin': t['origin'], 'first_issue': t['msg']},
                           {'kind': 'syntax', 'text': t['text'], 'version': t['ver']})
